@@ -180,13 +180,16 @@ def c12(ck, tmp):
         lines, reads, steps_l = [], [], []
         for k in range(rng.randint(4, 14)):
             w = G.walk(rng, g, adj, maxsteps=5)
-            if it % 6 == 0 and k == 0:
+            if it % 6 == 0 and k in (0, 1):
                 w = [(g.segs[0]["id"], rng.choice("+-"))]
             pseq = "".join(seqd[n] if o == "+" else G.rc(seqd[n]) for n, o in w)
             if len(pseq) < 2:
                 continue
+            boundary = it % 6 == 0 and k == 1
             if it % 6 == 0 and k == 0:
                 a, b = 100, 100 + 60001 + rng.randint(0, 50)
+            elif boundary:
+                a, b = 50, 50 + 60000          # exactly 60 000 read bases: the largest alignment that must still be realigned
             else:
                 a = rng.randrange(0, len(pseq) - 1)
                 b = rng.randrange(a + 1, min(len(pseq), a + 400) + 1)
@@ -196,6 +199,11 @@ def c12(ck, tmp):
             rate = rng.choice([0.0, 0.02, 0.05, 0.15])
             if len(ref) > 60000:
                 q, cg = ref, "%d=" % len(ref)
+            elif boundary:
+                q = list(ref)
+                for pos in rng.sample(range(len(q)), 3):
+                    q[pos] = rng.choice([c for c in "ACGT" if c != q[pos]])
+                q, cg = "".join(q), "%dM" % len(ref)      # a minimap2-style input CIGAR: only realignment makes it =/X
             else:
                 q, cg = mutate(rng, ref, rate)
             if not q:
@@ -350,14 +358,14 @@ def main_c12():
     ck.assumptions = ["AlignerContract: the aligner returns a valid, cost-optimal end-to-end alignment (monitored, not proved)",
                       "cost comparison with the input CIGAR only when the input CIGAR is itself a valid alignment of the two slices"]
     ck.canon = ["log output ignored"]
-    ck.lean_build(["Gaftools.Props.C12"])
+    ck.lean_build(["Gaftools.Props.C12", "Gaftools.Props.TieA2"])
     ck.audit("C12.lean")
     tmp = tempfile.mkdtemp(prefix="gtv-c12-")
     try:
         c12(ck, tmp)
     finally:
         shutil.rmtree(tmp, ignore_errors=True)
-    ck.rule = "random rGFAs with sequences x walks (forward/reverse steps, offsets anywhere or on node boundaries) x reads derived by substitutions/insertions/deletions at rates 0-15% with indels up to 60 and fragmented true CIGARs; one > 60 000-base record every sixth file; cores 1-2, batch sizes 2/3/1000, plain/BGZF; non-trivial = the read differs from the path slice or the path has a reverse step"
+    ck.rule = "random rGFAs with sequences x walks (forward/reverse steps, offsets anywhere or on node boundaries) x reads derived by substitutions/insertions/deletions at rates 0-15% with indels up to 60 and fragmented true CIGARs; one > 60 000-base record and one of exactly 60 000 bases (input CIGAR in 'M' form) every sixth file; cores 1-2, batch sizes 2/3/1000, plain/BGZF; non-trivial = the read differs from the path slice or the path has a reverse step"
     return ck.finish()
 
 
